@@ -204,11 +204,12 @@ Proof.
   destruct pts as [|[a1 a2] [|[b1 b2] [|[c1 c2] [|[d1 d2] [|e pts]]]]]; try discriminate.
   unfold px, py. cbn [fst snd].
   destruct (_ || _) eqn:E; [|discriminate].
+  apply orb_true_iff in E.
   intros H; inversion H; subst; clear H. unfold rect_element. cbn [fst snd elem_points].
   repeat match goal with
          | |- context [if ?c then _ else _] => let E := fresh "E" in destruct c eqn:E
          end;
-    rewrite !Z2N.id by lia; unfold padd; cbn [map fst snd same_cycle];
+    rewrite !Z2N.id by lia; unfold padd; cbn [map fst snd same_cycle]; destruct E as [E|E];
     first [ exists 0%nat; cbn [dih4]; pairs_lia | exists 1%nat; cbn [dih4]; pairs_lia
           | exists 2%nat; cbn [dih4]; pairs_lia | exists 3%nat; cbn [dih4]; pairs_lia
           | exists 4%nat; cbn [dih4]; pairs_lia | exists 5%nat; cbn [dih4]; pairs_lia
